@@ -992,6 +992,48 @@ func ruleFreshDst(c *Ctx, rule string, names ...string) {
 				}
 			}
 			k, w := f.classify(in.val)
+			// in a private helper the installed value may be one of the helper's own parameters: what the
+			// callers hand in decides
+			if k == fAlias && strings.HasPrefix(w, "parameter ") && !isRoot(fd) {
+				pname := strings.TrimPrefix(w, "parameter ")
+				pidx, i := -1, 0
+				for _, fl := range fd.Type.Params.List {
+					for _, nm := range fl.Names {
+						if nm.Name == pname {
+							pidx = i
+						}
+						i++
+					}
+				}
+				self := p.TypesInfo.Defs[fd.Name]
+				sites, allFresh, aliasW := 0, true, ""
+				for _, caller := range targets {
+					if caller == fd {
+						continue
+					}
+					cf := newFreshFn(p, caller)
+					ast.Inspect(caller.Body, func(x ast.Node) bool {
+						cc, ok := x.(*ast.CallExpr)
+						if !ok || calleeOf(p, cc) != self || pidx < 0 || pidx >= len(cc.Args) {
+							return true
+						}
+						sites++
+						ck, cw := cf.classify(cc.Args[pidx])
+						if ck != fFresh {
+							allFresh = false
+							if ck == fAlias {
+								aliasW = cw
+							}
+						}
+						return true
+					})
+				}
+				if sites > 0 && allFresh {
+					k, w = fFresh, ""
+				} else if aliasW != "" {
+					w = aliasW + " (handed to " + name + ")"
+				}
+			}
 			switch {
 			case same:
 				c.triv(rule, key, call.Pos(), "destination and source are the same object on this branch: in-place slicing allowed")
